@@ -472,9 +472,10 @@ class SimulationAlgorithm(BaseSimulationAlgorithm):
         df_ind = df.copy()
 
         if self.visit_type == VisitType.DATAFRAME:
+            df_visits = self.param_study["df_visits"]
+            # identifiers as strings, as for the sampled individual parameters
             return (
-                self.param_study["df_visits"]
-                .groupby("ID")["TIME"]
+                df_visits.groupby(df_visits["ID"].astype(str))["TIME"]
                 .apply(list)
                 .to_dict()
             )
